@@ -14,6 +14,7 @@
 #include <qpdf/Pl_Discard.hh>
 #include <qpdf/JSON.hh>
 #include <qpdf/Buffer.hh>
+#include <qpdf/BufferInputSource.hh>
 #include <atomic>
 #include <cstring>
 #include <memory>
@@ -289,4 +290,187 @@ std::string in_child(std::function<std::string()> fn) {
 static Reg r_iso("iso", [](std::vector<std::string> const& a) -> std::string {
     std::string hist = a.empty() ? "" : a[0];
     return in_child([hist] { World w; return w.run(hist); });
+});
+
+// ------------------------------------------------------------------------------------------------------
+//  thr <nthreads> <rounds> <seed> <workdir> <file1,file2,...> [nulls]
+//  N threads, each running <rounds> independent jobs on its OWN instances (QPDF, QPDFWriter, QPDFJob); the jobs
+//  are chosen from (seed, thread, round).  Phase 1 runs the threads concurrently, phase 2 runs the very same
+//  jobs one after the other in the main thread; the output hashes must be equal.  Built with -fsanitize=thread
+//  (drv-tsan) the run also produces ThreadSanitizer reports (TSAN_OPTIONS=log_path=...), which c20.py attributes.
+//  No job calls a process-wide setter (those are documented as global configuration).
+#include <qpdf/QPDFPageDocumentHelper.hh>
+#include <qpdf/QPDFPageObjectHelper.hh>
+#include <fstream>
+#include <mutex>
+#include <condition_variable>
+
+namespace {
+
+struct Rng {   // splitmix64
+    unsigned long long s;
+    unsigned long long next() { unsigned long long z = (s += 0x9e3779b97f4a7c15ULL); z = (z ^ (z >> 30)) * 0xbf58476d1ce4e5b9ULL;
+        z = (z ^ (z >> 27)) * 0x94d049bb133111ebULL; return z ^ (z >> 31); }
+    unsigned pick(unsigned n) { return static_cast<unsigned>(next() % n); }
+};
+
+std::string slurp(std::string const& path) {
+    std::ifstream f(path, std::ios::binary);
+    std::stringstream ss; ss << f.rdbuf(); return ss.str();
+}
+
+std::string write_mem(QPDF& q, int mode) {
+    QPDFWriter w(q);
+    w.setOutputMemory();
+    w.setStaticID(true);
+    switch (mode) {
+    case 1: w.setQDFMode(true); break;
+    case 2: w.setObjectStreamMode(qpdf_o_generate); break;
+    case 3: w.setLinearization(true); break;
+    case 4: w.setStreamDataMode(qpdf_s_uncompress); break;
+    case 5: w.setObjectStreamMode(qpdf_o_disable); w.setCompressStreams(true); w.setRecompressFlate(true); break;
+    case 6: w.setR3EncryptionParametersInsecure("u", "o", true, true, true, true, true, true, qpdf_r3p_full); break;
+    default: break;
+    }
+    w.write();
+    auto b = w.getBufferSharedPointer();
+    return std::string(reinterpret_cast<char const*>(b->getBuffer()), b->getSize());
+}
+
+struct ThrCfg { std::vector<std::string> files; std::vector<std::string> data; std::string workdir; bool nulls; };
+
+std::string job(ThrCfg const& cfg, unsigned long long seed, int tid, int round) {
+    Rng r{seed * 1000003ULL + static_cast<unsigned long long>(tid) * 7919ULL + static_cast<unsigned long long>(round)};
+    r.next();
+    unsigned kind = r.pick(8);
+    size_t fi = r.pick(static_cast<unsigned>(cfg.files.size()));
+    std::string const& data = cfg.data[fi];
+    std::string tag = std::to_string(kind) + ":";
+    try {
+        switch (kind) {
+        case 0: {   // build a document through the object API
+            QPDF q; q.emptyPDF();
+            auto a = QPDFObjectHandle::parse(&q, cfg.nulls ? "[ null 1 << /K null /L [ null 2 ] >> ]" : "[ 7 1 << /K /V /L [ true 2 ] >> ]");
+            auto ind = q.makeIndirectObject(a);
+            q.getTrailer().replaceKey("/QV", ind);
+            a.appendItem(QPDFObjectHandle::newInteger(round));
+            a.getArrayItem(2).replaceKey("/M", QPDFObjectHandle::newName("/X"));
+            auto copy = a.shallowCopy();
+            q.makeIndirectObject(copy);
+            return tag + hx64(fnv(write_mem(q, static_cast<int>(r.pick(3))) + a.unparseResolved() + a.getJSON(2, true).unparse()));
+        }
+        case 1: {   // open, JSON export
+            QPDF q; q.processMemoryFile("mem", data.data(), data.size());
+            Pl_Buffer p("json");
+            q.writeJSON(2, &p, qpdf_dl_generalized, qpdf_sj_inline, "", {});
+            return tag + hx64(fnv(p.getString()));
+        }
+        case 2: {   // open, write in one of the modes
+            QPDF q; q.processMemoryFile("mem", data.data(), data.size());
+            return tag + hx64(fnv(write_mem(q, static_cast<int>(r.pick(7)))));
+        }
+        case 3: {   // JSON export, JSON import, write
+            QPDF q; q.processMemoryFile("mem", data.data(), data.size());
+            Pl_Buffer p("json");
+            q.writeJSON(2, &p, qpdf_dl_none, qpdf_sj_inline, "", {});
+            std::string js = p.getString();
+            QPDF q2;
+            auto is = std::make_shared<BufferInputSource>("json", js);
+            q2.createFromJSON(is);
+            return tag + hx64(fnv(write_mem(q2, static_cast<int>(r.pick(2)))));
+        }
+        case 4: {   // mutate pages, copy a page from a second (own) instance, write
+            QPDF q; q.processMemoryFile("mem", data.data(), data.size());
+            QPDF other; other.processMemoryFile("mem2", cfg.data[(fi + 1) % cfg.data.size()].data(), cfg.data[(fi + 1) % cfg.data.size()].size());
+            QPDFPageDocumentHelper dh(q), oh(other);
+            auto pages = dh.getAllPages();
+            auto opages = oh.getAllPages();
+            if (!pages.empty()) pages.at(0).rotatePage(90, true);
+            if (!opages.empty()) dh.addPage(opages.at(r.pick(static_cast<unsigned>(opages.size()))), false);
+            if (pages.size() > 1) dh.removePage(pages.at(1));
+            q.getRoot().replaceKey("/QVT", QPDFObjectHandle::newInteger(tid));
+            q.getRoot().removeKey("/QVT");
+            std::string o1 = write_mem(q, static_cast<int>(r.pick(4)));
+            std::string o2 = write_mem(other, 0);       // the source of the copy must be unchanged
+            return tag + hx64(fnv(o1)) + hx64(fnv(o2));
+        }
+        case 5: {   // QPDFJob from argv
+            std::string out = cfg.workdir + "/thr-" + std::to_string(tid) + "-" + std::to_string(round) + ".pdf";
+            static char const* const opts[] = {"--qdf", "--linearize", "--object-streams=generate", "--stream-data=uncompress", "--rotate=+90:1", "--decode-level=all"};
+            std::string opt = opts[r.pick(6)];
+            std::vector<char const*> argv = {"qpdf", cfg.files[fi].c_str(), "--static-id", opt.c_str(), out.c_str(), nullptr};
+            QPDFJob j;
+            j.initializeFromArgv(argv.data());
+            j.run();
+            std::string res = slurp(out);
+            return tag + std::to_string(j.getExitCode()) + hx64(fnv(res));
+        }
+        case 6: {   // inspect: walk every object, decode every stream
+            QPDF q; q.processMemoryFile("mem", data.data(), data.size());
+            std::string acc;
+            for (auto& o: q.getAllObjects()) {
+                acc += o.unparseResolved();
+                if (o.isStream()) {
+                    Pl_Buffer p("s");
+                    if (o.pipeStreamData(&p, 0, qpdf_dl_all, false, false)) acc += p.getString();
+                } else if (o.isDictionary()) {
+                    for (auto const& k: o.getKeys()) acc += k;
+                } else if (o.isArray()) {
+                    for (auto const& it: o.getArrayAsVector()) acc += it.unparse();
+                }
+            }
+            return tag + hx64(fnv(acc));
+        }
+        default: {  // QPDFJob from JSON, JSON output to a file
+            std::string out = cfg.workdir + "/thr-" + std::to_string(tid) + "-" + std::to_string(round) + ".json";
+            std::string js = "{\"inputFile\": \"" + cfg.files[fi] + "\", \"outputFile\": \"" + out + "\", \"jsonOutput\": \"2\", \"staticId\": \"\"}";
+            QPDFJob j;
+            j.initializeFromJson(js);
+            j.run();
+            return tag + std::to_string(j.getExitCode()) + hx64(fnv(slurp(out)));
+        }
+        }
+    } catch (std::exception const& e) {
+        return tag + std::string("!") + e.what();
+    }
+}
+
+} // namespace
+
+static Reg r_thr("thr", [](std::vector<std::string> const& a) -> std::string {
+    int n = std::stoi(a.at(0)), rounds = std::stoi(a.at(1));
+    unsigned long long seed = std::stoull(a.at(2));
+    ThrCfg cfg;
+    cfg.workdir = a.at(3);
+    cfg.files = split(a.at(4), ',');
+    cfg.nulls = a.size() > 5 && a[5] == "nulls";
+    for (auto const& f: cfg.files) cfg.data.push_back(slurp(f));
+    std::vector<std::vector<std::string>> conc(static_cast<size_t>(n)), solo(static_cast<size_t>(n));
+    {
+        std::mutex m; std::condition_variable cv; int ready = 0; bool go = false;
+        std::vector<std::thread> ts;
+        for (int t = 0; t < n; ++t) {
+            ts.emplace_back([&, t] {
+                { std::unique_lock<std::mutex> lk(m); ++ready; cv.notify_all(); cv.wait(lk, [&] { return go; }); }
+                for (int k = 0; k < rounds; ++k) conc[static_cast<size_t>(t)].push_back(job(cfg, seed, t, k));
+            });
+        }
+        { std::unique_lock<std::mutex> lk(m); cv.wait(lk, [&] { return ready == n; }); go = true; cv.notify_all(); }
+        for (auto& t: ts) t.join();
+    }
+    for (int t = 0; t < n; ++t)
+        for (int k = 0; k < rounds; ++k) solo[static_cast<size_t>(t)].push_back(job(cfg, seed, t, k));
+    std::string out;
+    int diff = 0;
+    for (int t = 0; t < n; ++t)
+        for (int k = 0; k < rounds; ++k) {
+            auto const& c = conc[static_cast<size_t>(t)][static_cast<size_t>(k)];
+            auto const& s = solo[static_cast<size_t>(t)][static_cast<size_t>(k)];
+            if (c != s) { ++diff; out += " t" + std::to_string(t) + "r" + std::to_string(k) + ":" + c + "!=" + s; }
+        }
+    std::string kinds;
+    std::map<char, int> cnt;
+    for (auto& v: solo) for (auto& s: v) { cnt[s[0]]++; if (s.find('!') != std::string::npos) cnt['!']++; }
+    for (auto& [c, k]: cnt) kinds += std::string(1, c) + "=" + std::to_string(k) + ",";
+    return "jobs=" + std::to_string(n * rounds) + " diff=" + std::to_string(diff) + " kinds=" + kinds + out;
 });
